@@ -7,7 +7,7 @@
    As built: for the MappedPageTable/OffsetPageTable memory model the footprint and allocator
    statements ARE theorems for map_to, unmap, update_flags, set_flags_p*_entry and clean_up
    (below); what remains covered only by the correspondence is RecursivePageTable. *)
-From X86 Require Import Paging.Mapped Paging.MemProofs Paging.Tree Paging.TreeProofs Paging.Refine Paging.RefineOps Paging.RefineParent Paging.RefineClean.
+From X86 Require Import Paging.Mapped Paging.MemProofs Paging.Tree Paging.TreeProofs Paging.Refine Paging.RefineOps Paging.RefineParent Paging.RefineClean Paging.Recursive Paging.RecRead Paging.RecMap.
 Open Scope Z_scope.
 
 Theorem C09_new_table_completely_zeroed : forall s slot pf s' t i,
@@ -131,3 +131,13 @@ Proof.
   split; [exact Ha|]. split; [exact Hn|exact Ho].
 Qed.
 Print Assumptions C09_clean_up_requests_nothing_and_writes_only_the_hierarchy.
+
+(* RecursivePageTable::map_to touches what MappedPageTable's map_to touches: it IS that function
+   on table memory (with PRESENT | WRITABLE added to new parent entries), so the footprint,
+   zeroing and allocation theorems above carry over to it *)
+Theorem C09_recursive_map_to_has_the_mapped_footprint : forall s ch k page frame flags pf,
+  0 <= k <= 2 -> 0 <= rec_index s < 512 -> repx (rec_index s) s ch -> tframe (root s) ->
+  sep s (root s) ch -> pflags_ok pf -> p4_index page <> rec_index s ->
+  rmap_to s k page frame flags pf = map_to_rc true s k page frame flags pf.
+Proof. exact rmap_to_eq. Qed.
+Print Assumptions C09_recursive_map_to_has_the_mapped_footprint.
